@@ -179,7 +179,7 @@ Proof.
     pose proof (do_send_spec _ _ _ _ Ed q Eq) as D.
     destruct D as (D1 & D2 & D3 & D4 & D5 & D6 & D7 & D8 & D9 & D10 & D11 & D12 & D13 & D14).
     pose proof (io_complete_spec _ _ _ _ Ec) as S.
-    destruct S as (S1 & S2 & S3 & S4 & S5 & S6 & S7 & S8 & S9 & S10 & S11).
+    destruct S as (S1 & S2 & S3 & S4 & S5 & S6 & S8 & S9 & S10 & S11).
     apply in_app_or in Hin. destruct Hin as [Hin|Hin]; [|exfalso; eapply io_complete_no_interim; eauto].
     destruct (do_send_labels _ _ _ _ _ _ _ Ed Eq Hin) as [-> ->].
     assert (Hs : is_sending s = true) by (unfold is_sending; rewrite Eio; reflexivity).
@@ -277,12 +277,12 @@ Proof.
     { eapply astep_quiet; eauto. destruct (request s) as [q|]; destruct Hq0 as [-> _]; auto. }
     pose proof (after_parse_fields s q1 fresh) as F. cbv zeta in F, Hcase.
     set (s1 := after_parse s q1 fresh) in *.
-    destruct F as (F1 & F2 & F3 & F4 & F5 & F6 & F7 & F8 & F9 & F10 & F11 & F12 & F13 & F14).
+    destruct F as (F1 & F2 & F3 & F4 & F5 & F6 & F7 & F8 & F9 & F10 & F11 & F13 & F14).
     rewrite Hq1 in F14.
     destruct Hcase as [[Hw ->]|[Hw [l' Hc]]].
     + split; simpl; [congruence|]. intros q Hq. inv_some. simpl. assumption.
     + pose proof (io_complete_spec _ _ _ _ Hc) as S.
-      destruct S as (S1 & S2 & S3 & S4 & S5 & S6 & S7 & S8 & S9 & S10 & S11).
+      destruct S as (S1 & S2 & S3 & S4 & S5 & S6 & S8 & S9 & S10 & S11).
       split; [congruence|].
       destruct S11 as [(q & _ & _ & _ & Sr & _)|[(q & _ & _ & _ & Sr & _)|(_ & Sr & _)]];
         rewrite Sr; try discriminate. rewrite F1. intros q Hq. inv_some. assumption.
@@ -294,13 +294,13 @@ Proof.
       { destruct (a_completed q); inv_some; simpl; auto. }
       destruct D as [D1 D2].
       pose proof (io_complete_spec _ _ _ _ Ec) as S.
-      destruct S as (S1 & S2 & S3 & S4 & S5 & S6 & S7 & S8 & S9 & S10 & S11).
+      destruct S as (S1 & S2 & S3 & S4 & S5 & S6 & S8 & S9 & S10 & S11).
       split; [congruence|].
       destruct S11 as [(q' & _ & _ & _ & Sr & _)|[(q' & _ & _ & _ & Sr & _)|(_ & Sr & _)]];
         rewrite Sr; try discriminate. rewrite D2. intros q' Hq'. inv_some. simpl. auto.
     + inv_some.
       pose proof (io_complete_spec _ _ _ _ Ec) as S.
-      destruct S as (S1 & S2 & S3 & S4 & S5 & S6 & S7 & S8 & S9 & S10 & S11).
+      destruct S as (S1 & S2 & S3 & S4 & S5 & S6 & S8 & S9 & S10 & S11).
       split; [congruence|].
       destruct S11 as [(q' & Sq & _)|[(q' & Sq & _)|(_ & Sr & _)]]; try congruence;
         try (rewrite Sr, Eq; discriminate).
@@ -378,17 +378,17 @@ Proof.
     destruct (will_close s || close_when_flushed s); inv_some; auto.
   - left. destruct (step_parse_inv _ _ _ _ _ H) as (Eio & q0 & fresh & q1 & Hq0 & Ha & Hcase).
     pose proof (after_parse_fields s q1 fresh) as F. cbv zeta in F, Hcase.
-    destruct F as (F1 & F2 & F3 & F4 & F5 & F6 & F7 & F8 & F9 & F10 & F11 & F12 & F13 & F14).
+    destruct F as (F1 & F2 & F3 & F4 & F5 & F6 & F7 & F8 & F9 & F10 & F11 & F13 & F14).
     destruct Hcase as [[Hw ->]|[Hw [l' Hc]]].
     + simpl in Hi. congruence.
     + pose proof (io_complete_spec _ _ _ _ Hc) as S.
-      destruct S as (S1 & S2 & S3 & S4 & S5 & S6 & S7 & S8 & S9 & S10 & S11). congruence.
+      destruct S as (S1 & S2 & S3 & S4 & S5 & S6 & S8 & S9 & S10 & S11). congruence.
   - destruct (io s) as [| |more] eqn:Eio; try discriminate.
     destruct (do_send s false) as [s1 l1] eqn:Ed.
     destruct (io_complete s1 more) as [s2 l2] eqn:Ec. inv_some.
     destruct (A_iosend s HA more Eio) as [Ers [q Eq]].
     pose proof (io_complete_spec _ _ _ _ Ec) as S.
-    destruct S as (S1 & S2 & S3 & S4 & S5 & S6 & S7 & S8 & S9 & S10 & S11).
+    destruct S as (S1 & S2 & S3 & S4 & S5 & S6 & S8 & S9 & S10 & S11).
     rewrite S7 in Hi. unfold do_send in Ed. rewrite Eq in Ed.
     destruct (a_completed q); inv_some; simpl in Hi; auto.
     destruct Hi as [<-|Hi]; auto. right. split; auto. simpl. auto.
